@@ -463,6 +463,49 @@ func checkC10(c *Check) {
 		r3.Und("ast.IterateModuleImports", token.NoPos, "function not found")
 	}
 
+	// ---------------- R10.7 who enumerates another module's public declarations ----------------
+	// `Binde a und b aus "m" ein` makes visible exactly the listed names: the only place that walks over a module's whole
+	// PublicDecls table is ast.IterateImportedDecls, which consults the import's symbol list. Any other enumeration
+	// (range, maps.Keys/Values) of a PublicDecls table - e.g. to register aliases and operator overloads - bypasses it.
+	r7 := c.Rule("R10.7", "a module's PublicDecls table is enumerated only by ast.IterateImportedDecls (which honours the import's symbol list)", 1)
+	nEnum := 0
+	for _, fi := range L.sortedFuncs() {
+		if fi.Decl.Body == nil {
+			continue
+		}
+		info := fi.Pkg.TypesInfo
+		isPub := func(e ast.Expr) bool {
+			v := fieldOf(info, e)
+			return v != nil && nameIs(v, "PublicDecls") && isMapType(info.TypeOf(e))
+		}
+		ast.Inspect(fi.Decl.Body, func(n ast.Node) bool {
+			var at ast.Node
+			switch x := n.(type) {
+			case *ast.RangeStmt:
+				if isPub(x.X) {
+					at = x
+				}
+			case *ast.CallExpr:
+				if fn := Callee(info, x); fn != nil && fn.Pkg() != nil && (fn.Pkg().Path() == "maps" || fn.Pkg().Path() == "golang.org/x/exp/maps") && len(x.Args) >= 1 && isPub(x.Args[0]) {
+					switch fn.Name() {
+					case "Keys", "Values", "All", "Collect":
+						at = x
+					}
+				}
+			}
+			if at == nil {
+				return true
+			}
+			nEnum++
+			q := L.QName(fi.Obj)
+			r7.Decide(q == "ast.IterateImportedDecls", q+"|enumerates PublicDecls", at.Pos(), "the one enumeration, which filters by the import's symbol list", "a module's public declarations are enumerated outside ast.IterateImportedDecls: whatever is done for each of them here (aliases, operator overloads, symbols) is done for names the import statement did not list")
+			return true
+		})
+	}
+	if nEnum == 0 {
+		r7.Und("ast.IterateImportedDecls|enumerates PublicDecls", token.NoPos, "no enumeration of a PublicDecls table found")
+	}
+
 	// ---------------- R10.6 (shared with C04 R4.3b) ----------------
 	// an imported name that is already declared in the importer (by the importer itself or by an earlier import) is a
 	// reported clash on every path; it is never dropped silently (uses would bind to the module imported first)
